@@ -121,16 +121,19 @@ def connectThreads (l : XLayout) (s : ModelSpec) :
       | .error e => .error e
       | .ok regs' => connectThreads l s js b' regs'
 
+/-- `mux_set_default` of the CPU track of channel `i` -/
+def xCpuDflt (s : ModelSpec) (i : Nat) : Value :=
+  match s.cpuDefault.find? (·.1 == i) with
+  | some (_, v) => .int v
+  | none => .null
+
 /-- `model_cpu_connect` of one group (`connect_cpu`, `connect_cpu_prv`). -/
 def connectCpus (l : XLayout) (s : ModelSpec) :
     List (Nat × Nat) → Bay → List PrvReg → Except Err (Bay × List PrvReg)
   | [], b, regs => .ok (b, regs)
   | (c, i) :: js, b, regs =>
     if s.cpuTrack.getD i trackRun ≠ trackRun then .error .other else
-    let dflt : Value := match s.cpuDefault.find? (·.1 == i) with
-      | some (_, v) => .int v
-      | none => .null
-    match b.trackCpu (l.id (.cThrun c)) ((List.range l.nT).map fun g => l.id (.raw g s.char i)) dflt with
+    match b.trackCpu (l.id (.cThrun c)) ((List.range l.nT).map fun g => l.id (.raw g s.char i)) (xCpuDflt s i) with
     | .error e => .error e
     | .ok (b', out) =>
       match prvRegister b' regs ⟨out, 1, c + 1, s.pvtType.getD i 0, s.prvFlags.getD i 0⟩ with
@@ -163,6 +166,8 @@ def writeAll : List (Nat × Value) → Bay → Except Err Bay
 
 /-- The emulator with its patch bay and the two Paraver files. -/
 structure XEmu where
+  /-- the emulator as `emu_init` created it (names, enabled models) -/
+  emu0 : Emu
   emu : Emu
   lay : XLayout
   bay : Bay
@@ -189,7 +194,7 @@ def XEmu.init (e : Emu) : Except Err XEmu :=
       match b2.propagateP regs (List.replicate regs.length none) with
       | .error er => .error er
       | .ok (b3, lvs, ls) =>
-        .ok { emu := e, lay := l, bay := b3, regs := regs, lvs := lvs,
+        .ok { emu0 := e, emu := e, lay := l, bay := b3, regs := regs, lvs := lvs,
               th := ({ nrows := l.nT } : PrvFile).writeAll (linesOf 0 ls),
               cpu := ({ nrows := l.nC } : PrvFile).writeAll (linesOf 1 ls) }
 
@@ -269,5 +274,21 @@ def XEmu.step (x : XEmu) (dclock : Int) (ti m c v : Nat) (payload : List Nat)
                      th := th.writeAll (linesOf 0 ls), cpu := cpu.writeAll (linesOf 1 ls) }
   | .error er, _ => .error er
   | _, .error er => .error er
+
+end Ovni.Emu
+
+namespace Ovni.Emu
+
+/-- One event of a history: (dclock, thread, model, category, value, payload). -/
+abbrev XEv := Int × Nat × Nat × Nat × Nat × List Nat
+
+/-- `emu_step` along a history; the first refused event ends the emulation. -/
+def XEmu.run (x : XEmu) (taskHook markHook : Emu → Nat → Nat → Nat → List Nat → Except Err Emu) :
+    List XEv → Except Err XEmu
+  | [] => .ok x
+  | (t, ti, m, c, v, p) :: evs =>
+    match x.step t ti m c v p taskHook markHook with
+    | .error e => .error e
+    | .ok x' => x'.run taskHook markHook evs
 
 end Ovni.Emu
